@@ -38,10 +38,10 @@ func (g *gate) Write(p []byte) (int, error) {
 }
 
 type pser struct {
-	name   string
-	gated  bool
-	run    func(w io.Writer) []byte // gated: writes to w and returns nil; else returns the output
-	check  func() bool              // has a shared input been modified ?
+	name  string
+	gated bool
+	run   func(w io.Writer) []byte // gated: writes to w and returns nil; else returns the output
+	check func() bool              // has a shared input been modified ?
 }
 
 func runSchedule(s *pser, n int, sched []int) [][]byte {
@@ -182,6 +182,23 @@ func purityRun(args []string) error {
 		return b
 	}()
 	sers = append(sers, &pser{name: "Bundle.WriteTo (b1 variants + plain)", gated: true, run: func(w io.Writer) []byte { mixedBundle.WriteTo(w); return nil }})
+	// header names that differ only in letter case, put into the map directly: whatever the serializer makes of them
+	// (today: it fails with ErrDuplicatedKey), it makes the same of them every time
+	for _, ver := range version.AllVersions {
+		sp := baseSpec(r, ver)
+		ce := buildSigned(sp, kc).e
+		ce.ResponseHeaders["Link"] = []string{"<https://example.com/a>;rel=preload"}
+		ce.ResponseHeaders["link"] = []string{"<https://example.com/b>;rel=preload"}
+		ce.ResponseHeaders["LINK"] = []string{"<https://example.com/c>;rel=preload"}
+		// the output of a failed call is its error (bytes handed to the destination before the failure are not output)
+		sers = append(sers, &pser{name: "DumpExchangeHeaders colliding names " + string(ver), run: func(io.Writer) []byte {
+			var b bytes.Buffer
+			if err := ce.DumpExchangeHeaders(&b); err != nil {
+				return []byte("error: " + err.Error())
+			}
+			return b.Bytes()
+		}})
+	}
 	sers = append(sers, &pser{name: "Bundle.WriteTo (built)", gated: true, run: func(w io.Writer) []byte { sharedBundle.WriteTo(w); return nil }})
 	sers = append(sers, &pser{name: "Bundle.WriteTo (parsed)", gated: true, run: func(w io.Writer) []byte { parsedBundle.WriteTo(w); return nil }})
 	ch := (&bsigner{"c", []*keyCert{newKeyCert("p256", nil, 0), newKeyCert("p384", nil, 10)}, nil}).chain()
